@@ -442,6 +442,9 @@ impl Evidence {
         }
     }
     pub fn write(&self, violations: u64) {
+        if NO_EVIDENCE.load(Ordering::Relaxed) {
+            return;
+        }
         let mut cov = serde_json::Map::new();
         cov.insert("evaluations".into(), json!(self.evaluations));
         cov.insert("distinct_nontrivial".into(), json!(self.distinct.len() as u64));
@@ -485,8 +488,13 @@ pub struct Outcome {
 }
 
 static REPLAY_SEQ: AtomicU64 = AtomicU64::new(0);
+/// set by --no-evidence (sanitizer passes run the same engines without touching the evidence files)
+pub static NO_EVIDENCE: AtomicBool = AtomicBool::new(false);
 
 pub fn write_replay(prop: &str, seed: u64, doc: &Value) -> PathBuf {
+    if NO_EVIDENCE.load(Ordering::Relaxed) {
+        return PathBuf::from("(sanitizer-pass: no replay file written)");
+    }
     let dir = verif_dir().join("replays");
     let _ = std::fs::create_dir_all(&dir);
     let n = REPLAY_SEQ.fetch_add(1, Ordering::Relaxed);
@@ -514,6 +522,8 @@ pub fn finish(mut out: Outcome) -> i32 {
             m.insert("property".into(), json!(prop));
             m.insert("kind".into(), json!(f.kind));
             m.insert("detail".into(), json!(f.detail));
+            m.entry("seed").or_insert(json!(out.evidence.seed));
+            m.insert("tier".into(), json!(out.evidence.tier.name()));
         }
         let path = write_replay(&prop, out.evidence.seed, &d);
         println!("VIOLATION property={} replay={}", prop, path.display());
